@@ -25,6 +25,16 @@ CLAIMED = {
    text="parser.Parse is run on prefixes of all corpus programs, random bytes, token soup, mutations, nesting to depth 5000 and 10^5-character literals under logical progress bounds; panics, bound trips, out-of-input spans, failing error displays and any execution of an erroneous input are violations.",
    note="Termination is decided as bounded progress (>=100x slack over measured maxima, reported in the evidence); nesting deeper than 5000 is out of reach (Go stack).",
    design="6/C06"),
+ "C13": dict(
+   technique="runtime monitoring: model-conformance monitor over TLexer operation histories + ordered-choice recogniser monitor over random combinator expressions",
+   text="Random Next/Snapshot/Rollback/Commit histories on the real TLexer are compared observer-by-observer with a fresh plain scan after every op; random expressions over all 13 combinators run on the real TLexer are compared with a pure position-passing recogniser (accept/reject, nodes, end position, following token, snapshot balance).",
+   note="Generator keeps to the grammar's side conditions (Choose ends in an Ok gate, Not only under Assert, loops consume). Committed-choice semantics taken from the package documentation.",
+   design="6/C13"),
+ "C18": dict(
+   technique="runtime monitoring: model-conformance monitor over VM-legal memory operation histories in plain and tight-allocator (every growth moves the array) modes, unique written values",
+   text="VM-legal histories (calls with frame widths crossing 128/256, returns, local writes, frame-header aliases, globals, Clone with and without recycled targets on up to 9 interleaved memories, resets) run on the real memory.Type; after every op every observer of every live memory and alias is compared with a model where each activation is an independent record.",
+   note="Histories are limited to what the VM can issue. Tight mode relies on the verif hook trimming a freshly grown stack (append may move at any growth). Language-level reach of the same property comes from C03/C04 sessions.",
+   design="6/C18"),
 }
 
 ALL = ["C%02d" % i for i in range(1, 20)]
